@@ -83,5 +83,7 @@ Allocs  == s.crashed \/ InvAllocs(s)
 Ledger  == s.crashed \/ (~bud.created) \/ InvLedger(s)
 Search  == (Live /\ s.sendfail = 0) =>
              \A fam \in s.socks, ix \in {2, 3, 5}, sh \in Shapes, t \in Targets :
-                RecvOne(s, [sk |-> fam, ifx |-> ix, src |-> "u", shape |-> sh, st |-> StTab[t]]).viol = {}
+                "search-set" \notin RecvOne(s, [sk |-> fam, ifx |-> ix, src |-> "u", shape |-> sh, st |-> StTab[t]]).viol
+(* the announce set and its fields, for every registered device in every reachable state *)
+Announce == (Live /\ s.sendfail = 0) => \A d \in Devs : s.dev[d].used => TimerCb(s, d).viol = {}
 =============================================================================
